@@ -17,4 +17,15 @@ PROPS = {
             "the correspondence samples types to depth 4; the theorems have no depth bound",
         ],
     },
+    "C17": {
+        "translators": [],
+        "trusted_base": COMMON_TB + [
+            "hand-written model Dmn/Model/Workspace.lean of workspace/src/workspace.rs (add, remove, replace, clear, deploy, evaluate_invocable lookup); HashMaps as association lists; tied by the verif_snapshot hook and behaviourally",
+            "ModelEvaluator::new succeeds/fails as a parameter of the model (Def.builds); the alphabet's failing model is found by trying candidates on the real builder",
+        ],
+        "assumptions": [
+            "HashMap insert/remove/contains_key behave as a finite map (std)",
+            "the correspondence enumerates histories up to length 4 (quick) / 6 (thorough) over 11 operations and random ones to length 200; the theorems hold for every history",
+        ],
+    },
 }
